@@ -15,6 +15,9 @@ import (
 	"deps.dev/util/resolve/version"
 
 	"verifharness/sx"
+	"os"
+	"strconv"
+	"time"
 )
 
 // purityAttrs renders a version's attribute set with every key probed explicitly.
@@ -169,7 +172,15 @@ func init() {
 			perm = append(perm, p.Int())
 		}
 		ng := int(a.Nth(4).Int())
-		ctx := context.Background()
+		// one deadline for the whole history: a resolver that does not terminate on its own (npm on alias
+		// cycles, finding F-C04-6 of C04) stops when the context expires; such a history decides nothing about
+		// C05 and is answered ("undecided")
+		limit := 120 * time.Second
+		if sc, err := strconv.Atoi(os.Getenv("VERIF_WATCHDOG_SCALE")); err == nil && sc > 0 {
+			limit *= time.Duration(sc)
+		}
+		ctx, cancel := context.WithTimeout(context.Background(), limit)
+		defer cancel()
 		var out []sx.V
 		bad := func(kind string, i int, detail string) {
 			if len(out) < 8 {
@@ -272,6 +283,9 @@ func init() {
 			if !strings.Contains(s, "ERROR") {
 				ok++
 			}
+		}
+		if ctx.Err() != nil {
+			return sx.L(sx.Sym("undecided"))
 		}
 		return sx.L(sx.L(out...), sx.Int(ok), sx.Int(len(seq)))
 	})
